@@ -638,9 +638,12 @@ func createConnHandler(
 			ctx := stream.Context()
 
 			args := dynamicpb.NewMessage(argsDesc)
-			if err := stream.RecvMsg(args); err != nil {
-				return err
+			recvErr := stream.RecvMsg(args)
+			if recvErr != nil && !(recvErr == io.EOF && sd.ClientStreams) {
+				return recvErr
 			}
+			// recvErr == io.EOF: a client stream without any message is
+			// forwarded as such.
 
 			if md, ok := metadata.FromIncomingContext(ctx); ok {
 				ctx = metadata.NewOutgoingContext(ctx, md)
@@ -650,13 +653,15 @@ func createConnHandler(
 			if err != nil {
 				return err
 			}
-			if err := clientStream.SendMsg(args); err != nil {
-				return err
+			if recvErr == nil {
+				if err := clientStream.SendMsg(args); err != nil {
+					return err
+				}
 			}
 
 			var inErr error
 			var wg sync.WaitGroup
-			if sd.ClientStreams {
+			if sd.ClientStreams && recvErr == nil {
 				wg.Add(1)
 				go func() {
 					for {
